@@ -38,7 +38,7 @@ def _mk(headers, checkpoints, npeers, start_heights, inv_ids, max_cf, max_batch,
         batches.append(list(b))
     return {"init_chains": [list(c) for c in init_chains], "headers": headers, "checkpoints": checkpoints, "npeers": npeers,
             "start_heights": start_heights, "inv_ids": inv_ids, "max_cf": max_cf,
-            "batches": batches, "params": params or {"retarget_blocks": 2016, "reduce_min_difficulty": True}}
+            "batches": batches, "max_batch_len": max([len(b) for b in batches] + [1]), "params": params or {"retarget_blocks": 2016, "reduce_min_difficulty": True}}
 
 
 def quick():
